@@ -100,3 +100,44 @@ Theorem C13_nearest_is_first_argmin : forall m v cs,
   (forall j, (j < r)%nat -> F32.ltb (nth r ds 0) (nth j ds 0) = true).
 Proof. exact nearest_first_argmin. Qed.
 Print Assumptions C13_nearest_is_first_argmin.
+
+(** a vector added to a trained IVF index is found by a query with that very vector -- whatever the
+    partition, however few cells (>= 1) are probed, whatever k-independent options the query carries:
+    Add files it under the first nearest centroid and the probe order starts at that same centroid *)
+From Comet Require Import Proofs.IVFSelfP.
+Theorem C13_added_vector_found_by_own_query : forall p s id v w rq s',
+  p_kind p = KIVF -> 1 <= p_nlist p ->
+  st_centroids s <> [] -> length (st_lists s) = length (st_centroids s) ->
+  preprocess (p_metric p) v = Some w ->
+  Forall nn (map (dist (p_metric p) w) (st_centroids s)) ->
+  memz id (st_deleted s) = false ->
+  vadd_op p s id v = (s', E_OK) ->
+  eligible_id s' rq id = true ->
+  thr_ok rq (dist (p_metric p) w w) = true ->
+  exists o, search_single p s' rq v = Ok o /\ In id (map fst (so_full o)).
+Proof. exact ivf_added_vector_found_by_own_query. Qed.
+Print Assumptions C13_added_vector_found_by_own_query.
+
+(** the premises are satisfiable: two cells (centroids 0 and 10), the vector 9 goes to the second
+    cell and a one-probe query with 9 finds it *)
+Example C13_own_query_example :
+  let p := {| p_kind := KIVF; p_dim := 1; p_metric := L2; p_nlist := 2; p_M := 1; p_nbits := 1 |} in
+  let s := {| st_trained := true; st_centroids := [[0]; [1092616192]]; st_codebooks := [];
+              st_lists := [[]; []]; st_deleted := [] |} in
+  let rq := {| r_queries := []; r_nodes := []; r_docids := []; r_k := 1; r_thr := 0; r_agg := agg_of_Z 0;
+               r_cutoff := -1; r_nprobes := 1 |} in
+  let v := [1091567616] in
+  preprocess (p_metric p) v = Some v /\
+  Forall nn (map (dist (p_metric p) v) (st_centroids s)) /\
+  snd (vadd_op p s 7 v) = E_OK /\
+  st_lists (fst (vadd_op p s 7 v)) = [[]; [{| e_id := 7; e_vec := v; e_code := [] |}]] /\
+  eligible_id (fst (vadd_op p s 7 v)) rq 7 = true /\
+  thr_ok rq (dist (p_metric p) v v) = true /\
+  match search_single p (fst (vadd_op p s 7 v)) rq v with Ok o => map fst (so_full o) = [7] | Err _ => False end.
+Proof.
+  cbv zeta.
+  split; [vm_compute; reflexivity|]. split; [repeat constructor|].
+  split; [vm_compute; reflexivity|]. split; [vm_compute; reflexivity|].
+  split; [vm_compute; reflexivity|]. split; [vm_compute; reflexivity|].
+  vm_compute. reflexivity.
+Qed.
